@@ -370,6 +370,7 @@ type vPuppet struct {
 	inOpen  int
 	inEnded int
 	refuse  bool
+	emptyFrames int
 }
 
 // NewPuppet creates a raw peer that registers handlers for protos (its
@@ -456,6 +457,9 @@ func (p *vPuppet) handle(s network.Stream) {
 			return
 		}
 		if len(frame) == 0 {
+			p.mu.Lock()
+			p.emptyFrames++
+			p.mu.Unlock()
 			continue
 		}
 		rpc := new(pb.RPC)
